@@ -114,6 +114,7 @@ class RunMonitor:
         self.max_consec_noeval = 0
         self.flags = set()
         self.monitor_errors = []
+        self.last_neighbors = None
         try:
             sd_ = int(spec["options"].get("random_seed") or 0)
         except (TypeError, ValueError):
@@ -519,7 +520,9 @@ class RunMonitor:
             z = o_imp(b, f_base, f_new, s_base, s_new, q)
             if b is mon.bads and mon.cur_poll is not None:
                 mon.cur_poll["imps"].append((len(mon.cur_poll["evals"]), copy.copy(z), f_base, f_new))
-            if b is mon.bads and mon.cur_poll is None and mon.cur_search is None:
+            if b is mon.bads and mon.cur_poll is None and mon.cur_search is None and np.ndim(f_new) == 0:
+                # loop-body call with scalar arguments = the historic (stall) improvement;
+                # the re-estimation call that follows it in noisy modes passes arrays
                 mon.last_loop_imp = z
             return z
 
@@ -983,6 +986,7 @@ class RunMonitor:
         def nb(function_logger, u, gp, options, optim_state):
             out = o_nb(function_logger, u, gp, options, optim_state)
             if function_logger is mon.fl:
+                mon.last_neighbors = (np.array(out[0], copy=True), np.array(out[1], copy=True), None if out[2] is None else np.array(out[2], copy=True))
                 mon._after_neighbors(function_logger, u, gp, options, optim_state, out)
             return out
 
@@ -991,10 +995,12 @@ class RunMonitor:
         o_loc = bb.local_gp_fitting
 
         def loc(gp, current_point, function_logger, options, optim_state, iteration_history, refit_flag):
+            mon.last_neighbors = None
             out = o_loc(gp, current_point, function_logger, options, optim_state, iteration_history, refit_flag)
             if function_logger is mon.fl:
                 g = out[0]
                 mon.c("C15.local_fit_exits")
+                mon._check_gp_holds_selected_set(g, refit_flag)
                 if refit_flag:
                     mon.c("C15.local_refits")
                 mon._check_training_set("local_gp_fitting-exit", g.X, g.y, g.s2 if function_logger.noise_flag else None, variance=True)
@@ -1028,6 +1034,30 @@ class RunMonitor:
             return out
 
         patch.set(bb, "add_and_update_gp", add)
+
+    @safe
+    def _check_gp_holds_selected_set(self, g, refit_flag):
+        """after a local fit the surrogate must be conditioned on exactly the set the
+        nearest-neighbour selector returned for this call (same rows, same order)"""
+        ln = self.last_neighbors
+        if ln is None:
+            self.v("C15/local-fit-without-neighbour-selection")
+            return
+        U, Y, S = ln
+        self.c("C15.local_fit_sets_compared")
+        gx, gy = np.asarray(g.X), np.asarray(g.y).reshape(-1)
+        if gx.shape != U.shape or not np.array_equal(gx, U):
+            self.v("C15/gp-training-set-differs-from-selected-neighbours", gp_rows=int(gx.shape[0]), selected_rows=int(U.shape[0]), refit=bool(refit_flag),
+                   n_logged=int(self.fl.X_max_idx + 1))
+            return
+        yy = Y.reshape(-1)
+        fin = np.isfinite(yy)
+        if gy.shape != yy.shape or not np.array_equal(gy[fin], yy[fin]):
+            self.v("C15/gp-training-values-differ-from-selected-neighbours", refit=bool(refit_flag))
+        if S is not None and self.fl.he_noise_flag:
+            gs = None if g.s2 is None else np.asarray(g.s2).reshape(-1)
+            if gs is None or gs.shape != S.reshape(-1).shape or not np.array_equal(gs, S.reshape(-1), equal_nan=True):
+                self.v("C15/gp-noise-differs-from-selected-neighbours", refit=bool(refit_flag))
 
     def _log_index(self):
         fl = self.fl
